@@ -1,7 +1,7 @@
 (* C19 -- dc: a key ID is accepted at most once and issued at most once.
    Property theorems only; each is closed by [exact] of a lemma proved in proofs/. *)
 From SQ Require Import lib.Base gen.Gen_C19.
-From SQ Require model.DcReceiver model.DcSender proofs.DcReceiverProofs proofs.DcSenderProofs.
+From SQ Require model.DcReceiver model.DcSender proofs.DcReceiverProofs proofs.DcSenderProofs model.DcDedup proofs.DcDedupProofs.
 From Coq Require Import Sorting.Sorted.
 Import DcReceiver.
 Local Open Scope N_scope.
@@ -54,6 +54,14 @@ Example C19_example :
   /\ DcSender.run [0; 0; 1; 7; 0; 1; 2; 0]%Z = [0; 1; 7; 8]%Z.
 Proof. split; vm_compute; reflexivity. Qed.
 
+(* Map level (open::Once -> Dedup::check -> map::State::check_dedup -> post_authentication): the
+   model of the delivery-schedule component is the receiver model restricted to the result codes,
+   and it satisfies the same executable judgement (at most once; every unseen id inside the
+   896-window opens -- in particular the id exactly 895 below the highest one) *)
+Theorem C19_dedup_judge_model : forall ids, Forall DcReceiverProofs.in_range ids ->
+  DcDedup.judge ids (DcDedup.run ids) = true.
+Proof. exact DcDedupProofs.judge_run. Qed.
+
 Print Assumptions C19_window_is_896.
 Print Assumptions C19_dcr_accept_iff.
 Print Assumptions C19_dcr_at_most_once.
@@ -61,3 +69,4 @@ Print Assumptions C19_dcr_judge_model.
 Print Assumptions C19_dcs_strictly_increasing.
 Print Assumptions C19_dcs_judge_model.
 Print Assumptions C19_dcs_judge_sound.
+Print Assumptions C19_dedup_judge_model.
